@@ -32,6 +32,7 @@ func runC15(c *Ctx) {
 	c15ThroughRetryClient(c)
 	if mqtt.VerifHasIDs {
 		c15LongOutstanding(c)
+		c15AbandonedThenWrap(c)
 	}
 }
 
@@ -488,6 +489,78 @@ func c15ThroughRetryClient(c *Ctx) {
 					}
 				},
 				Observe: func() uint64 { return r.net.TraceHash() },
+			}
+			c.Explore(sc)
+		}
+	}
+}
+
+// (d') a request that its caller gave up (context cancelled, never answered) leaves its waiter
+// behind; once the counter has gone round, the identifier is drawn again for a new request of the
+// same kind while another request follows: what is outstanding must be distinct and non-zero.
+func c15AbandonedThenWrap(c *Ctx) {
+	c.Bound("abandoned-then-wrap", "for each kind in {QoS1 publish, QoS2 publish, subscribe, unsubscribe} and abandoned identifier in {42, 0xFFFF}: the request is given up unanswered, 65,534 identifiers are drawn, then a request of the same kind and a QoS 1 publish are outstanding together")
+	issue := func(cli *mqtt.BaseClient, ctx vctx.Context, k, tag string) {
+		switch k {
+		case "p1":
+			cli.Publish(ctx, &mqtt.Message{Topic: "t", QoS: mqtt.QoS1, Payload: []byte(tag)})
+		case "p2":
+			cli.Publish(ctx, &mqtt.Message{Topic: "t", QoS: mqtt.QoS2, Payload: []byte(tag)})
+		case "sub":
+			cli.Subscribe(ctx, mqtt.Subscription{Topic: tag, QoS: mqtt.QoS1})
+		case "unsub":
+			cli.Unsubscribe(ctx, tag)
+		}
+	}
+	for _, k := range []string{"p1", "p2", "sub", "unsub"} {
+		for _, start := range []uint32{41, 0xFFFE} {
+			k, start := k, start
+			var net *env.Net
+			sc := &vrt.Scenario{
+				Name: fmt.Sprintf("C15/abandoned-then-wrap/%s/abandoned-id-%d", k, start+1),
+				Cfg:  vrt.Config{StepCap: 500000, Horizon: int64(30 * time.Second)},
+				Body: func() {
+					net = env.NewNet()
+					s := env.NewScript(net)
+					s.AutoConnAck = true
+					cli := &mqtt.BaseClient{Transport: s.Conn}
+					vrt.W.RandInt31n = func(n int32) int32 { return 7 }
+					if _, err := cli.Connect(vctx.Background(), "c15"); err != nil {
+						vrt.Failf("harness", "connect: %v", err)
+						return
+					}
+					mqtt.VerifSetIDLast(cli, start)
+					ctx1, cancel1 := vctx.WithCancel(vctx.Background())
+					vrt.Go("abandoned", func() { issue(cli, ctx1, k, "gone") })
+					vrt.Settle()
+					cancel1()
+					vrt.Settle()
+					for i := 0; i < 65534; i++ {
+						mqtt.VerifNewID(cli)
+					}
+					ctx, cancel := vctx.WithCancel(vctx.Background())
+					n := len(s.Got)
+					vrt.Go("again", func() { issue(cli, ctx, k, "again") })
+					vrt.Settle()
+					vrt.Go("other", func() { issue(cli, ctx, "p1", "other") })
+					vrt.Settle()
+					seen := map[uint16]string{}
+					for _, p := range s.Got[n:] {
+						if p.Type != env.PUBLISH && p.Type != env.SUBSCRIBE && p.Type != env.UNSUBSCRIBE {
+							continue
+						}
+						if p.ID == 0 {
+							vrt.Failf("c15/zero-id", "after an abandoned %s and a full round of the counter a request carries identifier 0: %s", k, p)
+						}
+						if prev, ok := seen[p.ID]; ok {
+							vrt.Failf("c15/duplicate-outstanding-id", "after an abandoned %s and a full round of the counter two outstanding requests carry identifier %d: %s and %s", k, p.ID, prev, p)
+						}
+						seen[p.ID] = p.String()
+					}
+					cancel()
+					vrt.Quiesce()
+				},
+				Observe: func() uint64 { return net.TraceHash() },
 			}
 			c.Explore(sc)
 		}
